@@ -76,7 +76,9 @@ fn observe(what: &str, arr: [u32; 5]) -> Option<(String, String)> {
                 HandRankName::Straight => "Straight",
                 _ => "neither",
             };
-            (format!("predicates imply {} (flush={} straight={} sf={})", implied, fl, st, sf), format!("predicates imply {} (ranked category {:?})", actual, name))
+            // compared as plain tokens: what the predicates imply vs what ranking says
+            let _ = (fl, st, sf);
+            (implied.to_string(), actual.to_string())
         }
         _ => return None,
     })
@@ -195,6 +197,28 @@ pub fn run(ctx: &Ctx, rep: &mut Report) {
     });
     let acc = Acc::merged(accs);
     rep.add_space("5H x 120 orders x 8 observations + category agreement", &acc, t0, "every five-card hand in every slot order");
+    {
+        let c = |r: u8, s: u8| crate::oracle::cards::Card::new(r, s).word();
+        let hands: Vec<[u32; 5]> = vec![
+            [c(12, 3), c(11, 3), c(10, 3), c(9, 3), c(8, 3)],
+            [c(12, 3), c(11, 3), c(10, 3), c(9, 3), c(8, 2)],
+            [c(12, 3), c(11, 3), c(10, 3), c(9, 3), c(6, 3)],
+            [c(12, 3), c(12, 2), c(11, 3), c(10, 3), c(8, 3)],
+            [c(12, 3), c(3, 3), c(2, 3), c(1, 3), c(0, 3)],
+            [c(12, 2), c(3, 3), c(2, 3), c(1, 3), c(0, 3)],
+            [c(4, 2), c(3, 3), c(2, 3), c(1, 3), c(0, 3)],
+            [c(7, 0), c(7, 1), c(7, 2), c(3, 3), c(3, 0)],
+            [c(5, 1), c(3, 1), c(2, 1), c(1, 1), c(0, 1)],
+            [c(12, 0), c(10, 1), c(7, 2), c(4, 3), c(1, 0)],
+        ];
+        let mut items = Vec::new();
+        for h in &hands {
+            for ob in OBS {
+                items.push(Case::w32(ob, h));
+            }
+        }
+        super::history2(rep, judge, &items);
+    }
     let preds = ["flush", "straight", "straight_flush", "wheel"];
     for cat in 0..9 {
         for (pi, p) in preds.iter().enumerate() {
